@@ -293,7 +293,7 @@ def sym_from_index(k, idx, alphabet=ALPHA):
     return A
 
 
-WEIGHTS = (0.0, 1.0, 1j)  # base 2: plain graphs; base 3: edges may also carry the weight i
+WEIGHTS = (0.0, 1.0, 1j, -1j)  # base 2: plain graphs; base 3: edges may also carry the weight i; base 4: and -i (Hermitian non-real biadjacency matrices)
 
 
 def graph_from_index(k, idx, base=2):
@@ -1081,7 +1081,7 @@ def run(ctx):
     tak_k = (1, 2, 3)
     # (nodes, weight base): base 3 = edge weights {1, 1j} (contains every plain graph), base 2 = plain 0/1 graphs
     gr_kb = ((1, 3), (2, 3), (3, 3), (4, 3)) if quick else ((1, 3), (2, 3), (3, 3), (4, 3), (5, 3))
-    bip_kb = ((1, 3), (2, 3), (3, 2)) if quick else ((1, 3), (2, 3), (3, 3), (4, 2))
+    bip_kb = ((1, 4), (2, 4), (3, 2)) if quick else ((1, 4), (2, 4), (3, 3), (4, 2))
 
     tasks = []
     states = transitions = validated = 0
